@@ -281,13 +281,13 @@ def h_varint_contract(eng, p, args, kw, node):
     k = next(eng.counter)
     m1 = z3.Const(f"mem_after_varint!{k}", MemSort)
     nl = CI.var(f"loc_after_varint!{k}", 32, False)
-    idx = z3.Int(f"vidx!{k}")
     old = p.mem[name]
     p.ghost["varint_calls"] = p.ghost.get("varint_calls", []) + [(loc0, xi, L, old, m1)]
     p.mem[name] = m1
     p.heap[name] = dict(p.heap[name], loc=nl)
-    p.pc += [xi >= 0, xi < 2 ** 64, nl.range_constraint(), nl.iv == loc0 + L, uleb_bytes(m1, loc0, xb, L),
-             z3.ForAll([idx], z3.Implies(z3.Or(idx < loc0, idx >= loc0 + L), z3.Select(m1, idx) == z3.Select(old, idx)))]
+    p.pc += [xi >= 0, xi < 2 ** 64, nl.range_constraint(), nl.iv == loc0 + L, uleb_bytes(m1, loc0, xb, L)]
+    p.ghost["facts"] = p.ghost.get("facts", []) + [
+        ("frame", lambda i, m1=m1, old=old, loc0=loc0, L=L: z3.Implies(z3.Or(i < loc0, i >= loc0 + L), z3.Select(m1, i) == z3.Select(old, i)))]
     return [(p, NONE)]
 
 
@@ -306,14 +306,26 @@ def _assigned_names(stmts):
     return names
 
 
+def inst(p, kind, *terms):
+    """instances of the universally quantified facts of kind `kind` recorded on path p (p.ghost['facts']: list of (kind, fn(term) -> Bool));
+    the facts are never put into the path condition as quantifiers: every query stays quantifier-free"""
+    return [f(t) for k, f in p.ghost.get("facts", []) if k == kind for t in terms]
+
+
 def encode_bitpacked_closure(w, timeout, max_states=64):
     res = EResults()
     tag = f"[w={w}]"
     state = {"seen": {}}
     VB = z3.Function(f"SPECBIT_w{w}", z3.IntSort(), BV1)      # SPECBIT(t); defined, instances added where a particular t is needed
+    pre = f"encode_bitpacked{tag}."
 
-    def mk_inv(p, b, c, e, bits, n, base, vmem, mem_h):
-        """invariant of control state bit == b over ghost c (payload bytes written), e (values consumed)"""
+    def prove(name, hyps, goal, note, mf, kind="functional"):
+        st, m, secs = solve(list(hyps) + [z3.Not(goal)], timeout)
+        res.addk(pre + name, kind, st, mf(m) if m is not None else None, secs, "z3", note)
+        return st
+
+    def mk_inv(p, b, c, e, bits, n, base):
+        """invariant of control state bit == b over ghost c (payload bytes written), e (values consumed): linear part, accumulator part"""
         lia = [c >= 0, 0 <= e, e <= n, 8 * c + b == w * e, cy.loc(p, "o") == base + c]
         bvs = []
         if not (0 <= b < 8):
@@ -322,15 +334,17 @@ def encode_bitpacked_closure(w, timeout, max_states=64):
             for u in range(b):
                 bvs.append(z3.Extract(u, u, bits) == VB(8 * c + u))
             bvs.append(z3.LShR(bits, b) == 0)
-        i, idx = z3.Int("iq"), z3.Int("idxq")
-        m = p.mem["o"]
-        memf = [z3.ForAll([i], z3.Implies(z3.And(0 <= i, i < c), z3.Select(m, base + i) == specbyte_of(VB, i))),
-                z3.ForAll([idx], z3.Implies(z3.Or(idx < base, idx >= base + c), z3.Select(m, idx) == z3.Select(mem_h, idx)))]
-        return lia, bvs, memf
+        return lia, bvs
+
+    def mem_facts(m, c, base, mem_h):
+        """memory part of the invariant, as instantiable facts: payload bytes [0, c) are the SPECBIT bytes; nothing else differs from the
+        memory right after the header"""
+        return [("spec", lambda i, m=m, c=c: z3.Implies(z3.And(0 <= i, i < c), z3.Select(m, base + i) == specbyte_of(VB, i))),
+                ("frame", lambda idx, m=m, c=c: z3.Implies(z3.Or(idx < base, idx >= base + c), z3.Select(m, idx) == z3.Select(mem_h, idx)))]
 
     def hook(eng, st, p):
         g = p.ghost
-        n, vmem = g["n"], g["vmem"]
+        n, vmem, mf = g["n"], g["vmem"], g["mf"]
         if not (isinstance(st, ast.For) and isinstance(st.iter, ast.Call) and getattr(st.iter.func, "id", None) == "range"
                 and len(st.iter.args) == 1):
             raise Unsupported("encode_bitpacked: the value loop is not `for .. in range(count)`")
@@ -339,16 +353,18 @@ def encode_bitpacked_closure(w, timeout, max_states=64):
             raise Unsupported("forking loop bound")
         p, hargs = evs[0]
         hi = eng.as_int(hargs[0], p, st)
-        eng.oblige(p, "encode_bitpacked.loop_bound_is_count", "post", hi == n, st, note="the loop visits exactly the n values")
+        prove("loop_bound_is_count", p.pc, hi == n, "the value loop visits exactly the n values", mf)
         p.pc.append(hi == n)                                    # cut (posed just above)
         base = cy.loc(p, "o")
         mem_h = p.mem["o"]
         g["base"], g["mem_h"] = base, mem_h
+        header_facts = list(g.get("facts", []))
         b0 = _cval(p.env["bit"]) if isinstance(p.env.get("bit"), CI) else None
         if b0 is None or not isinstance(p.env.get("bits"), CI):
             raise Unsupported("encode_bitpacked: control variable `bit` / accumulator `bits` not found or not concrete on loop entry")
-        lia, bvs, memf = mk_inv(p, b0, z3.IntVal(0), z3.IntVal(0), eng.conv(p.env["bits"], 32, True, p).bv, n, base, vmem, mem_h)
-        eng.oblige(p, f"encode_bitpacked.closure.invariant_on_entry(bit={b0})", "inv", z3.And(*lia, *bvs, *memf), st)
+        lia, bvs = mk_inv(p, b0, z3.IntVal(0), z3.IntVal(0), eng.conv(p.env["bits"], 32, True, p).bv, n, base)
+        prove(f"closure.invariant_on_entry(bit={b0})", p.pc, z3.And(*lia, *bvs),
+              "before the first value: no payload byte written, no pending bit, accumulator zero", mf)
         assigned = _assigned_names(st.body) | _assigned_names([st])
         todo, exits = [b0], []
         while todo and len(state["seen"]) < max_states:
@@ -360,13 +376,15 @@ def encode_bitpacked_closure(w, timeout, max_states=64):
             k = next(eng.counter)
             c, e = z3.Int(f"c!{k}"), z3.Int(f"e!{k}")
             bits = z3.BitVec(f"bits!{k}", 32)
-            q.mem["o"] = z3.Const(f"omem!{k}", MemSort)
+            M = z3.Const(f"omem!{k}", MemSort)
+            q.mem["o"] = M
             q.heap["o"] = dict(q.heap["o"])
             oloc = z3.Int(f"oloc!{k}")
             q.heap["o"]["loc"] = CI(z3.Int2BV(oloc, 32), 32, False, oloc, (0, 2 ** 32 - 1))
             q.pc += [oloc >= 0, oloc < 2 ** 32]
-            lia, bvs, memf = mk_inv(q, b, c, e, bits, n, base, vmem, mem_h)
-            q.pc += lia + bvs + memf
+            lia, bvs = mk_inv(q, b, c, e, bits, n, base)
+            q.pc += lia + bvs
+            q.ghost["facts"] = header_facts + mem_facts(M, c, base, mem_h)
             q.env = dict(q.env)
             # every local the body assigns is arbitrary (under the invariant)
             for nm in sorted(assigned):
@@ -385,57 +403,71 @@ def encode_bitpacked_closure(w, timeout, max_states=64):
             body = q.fork(e < hi)
             if not eng.feasible(body):
                 continue
+            ve = value_at(vmem, e)
             # precondition `every value lies inside the width`, instantiated at the value this iteration reads
-            body.pc.append(in_width(value_at(vmem, e), w))
+            body.pc.append(in_width(ve, w))
             starts = eng.assign(st.target, PyI(e), body)
             n_before = len(eng.oblig)
             outs = eng.block(st.body, starts)
             for ob in eng.oblig[n_before:]:
                 ob.name = ob.name + f"@state(bit={b})"
-            ve = value_at(vmem, e)
             for r in outs:
                 if r.ctl is not None:
                     raise Unsupported("abrupt exit inside the encode_bitpacked value loop")
                 b2 = _cval(r.env["bit"]) if isinstance(r.env.get("bit"), CI) else None
                 if b2 is None:
                     raise Unsupported("control variable `bit` not concrete after one loop iteration")
-                nm = f"encode_bitpacked.closure.state(bit={b})->(bit={b2})"
+                nm = f"closure.state(bit={b})->(bit={b2})"
                 c2 = z3.simplify(cy.loc(r, "o") - base)
                 bits2 = eng.conv(r.env["bits"], 32, True, r).bv
-                # (1) index arithmetic of the new value's bits (linear lemma, proved, then used): stream bit 8c + b + s is bit s of value e
-                s_ = z3.Int(f"s!{k}")
-                idx_lemma = z3.Implies(z3.And(0 <= s_, s_ < w), z3.And((8 * c + b + s_) / w == e, (8 * c + b + s_) % w == s_,
-                                                                       8 * c + b + s_ < w * n)) if w > 0 else z3.BoolVal(True)
-                eng.oblige(r, nm + ".spec_index_arithmetic", "inv", idx_lemma, st,
-                           note="from 8c + bit == width*e and e < n: stream bit 8c + bit + s (0 <= s < width) is bit s of value e")
-                for s in range(w):
-                    t = 8 * c + (b + s)
-                    r.pc.append(z3.And(t / w == e, t % w == s, t < w * n))               # instances of the proved lemma
-                # (2) SPECBIT at those positions == the value's bits (definition of SPECBIT evaluated, proved, then used)
+                M2 = r.mem["o"]
+                core = [8 * c + b == w * e, 0 <= e, e < n, c >= 0]
                 if w > 0:
-                    lem = z3.And(*[specbit(vmem, w, n, 8 * c + (b + s)) == z3.Extract(s, s, ve) for s in range(w)])
-                    eng.oblige(r, nm + ".new_bits_are_value_bits", "inv", lem, st,
-                               note="SPECBIT(8c + bit + s) == bit s of values[e] for 0 <= s < width")
-                    r.pc.append(lem)
+                    # (1) index arithmetic of the new value's bits (linear lemma on its own hypotheses; proved, then used)
+                    s_ = z3.Int(f"s!{k}")
+                    t_s = 8 * c + b + s_
+                    prove(nm + ".spec_index_arithmetic", core + [0 <= s_, s_ < w], z3.And(t_s / w == e, t_s % w == s_, t_s < w * n),
+                          "from 8c + bit == width*e and e < n: stream bit 8c + bit + s (0 <= s < width) is bit s of value e", mf)
+                    # (2) SPECBIT at those positions == the value's bits (the definition of SPECBIT evaluated; proved, then used)
+                    lem = []
                     for s in range(w):
                         t = 8 * c + (b + s)
-                        r.pc.append(VB(t) == specbit(vmem, w, n, t))                   # instances of the definition of SPECBIT
-                # (3) every byte stored in this iteration is the specification byte
+                        idx_inst = [t / w == e, t % w == s, t < w * n]                     # instances of lemma (1)
+                        lem.append((idx_inst, specbit(vmem, w, n, t) == z3.Extract(s, s, ve)))
+                    st_l, m_l, secs_l = PROVED, None, 0.0
+                    for hy, gl in lem:
+                        st1, m1_, s1 = solve(hy + [z3.Not(gl)], timeout)
+                        secs_l += s1
+                        if st1 != PROVED:
+                            st_l, m_l = st1, m1_
+                            break
+                    res.addk(pre + nm + ".new_bits_are_value_bits", "functional", st_l, mf(m_l) if m_l is not None else None, secs_l, "z3",
+                             "SPECBIT(8c + bit + s) == bit s of values[e] for 0 <= s < width")
+                    for s in range(w):
+                        t = 8 * c + (b + s)
+                        # instance of the definition of SPECBIT, rewritten with the lemma just proved
+                        r.pc.append(VB(t) == z3.Extract(s, s, ve))
+                # (3) every byte stored in this iteration is the specification byte, stored in order at the cursor
                 m_new = (b + w) // 8 if 0 <= b < 8 else 0
-                oloc0 = base + c
-                stored = z3.And(*[z3.Select(r.mem["o"], oloc0 + t_) == z3.Concat(*[VB(8 * c + (8 * t_ + u)) for u in reversed(range(8))])
+                stored = z3.And(*[z3.Select(M2, oloc + t_) == z3.Concat(*[VB(8 * c + (8 * t_ + u)) for u in reversed(range(8))])
                                   for t_ in range(m_new)]) if m_new else z3.BoolVal(True)
-                eng.oblige(r, nm + ".emitted_bytes_are_spec", "post", z3.And(c2 == c + m_new, stored), st,
-                           note=f"the {m_new} byte(s) completed by this value are written, in order, and equal the SPECBIT bytes")
-                r.pc += [c2 == c + m_new, stored]
+                untouched = [M2 == M] if m_new == 0 else []
+                prove(nm + ".emitted_bytes_are_spec", r.pc, z3.And(c2 == c + m_new, stored, *untouched),
+                      f"the {m_new} byte(s) completed by this value are written in order at the cursor and equal the SPECBIT bytes", mf)
+                r.pc += [c2 == c + m_new, stored] + untouched
                 # (4) the pending bits are the next stream bits and nothing else (no bit lost or smeared in the 32-bit accumulator)
-                lia2, bvs2, memf2 = mk_inv(r, b2, c2, e + 1, bits2, n, base, vmem, mem_h)
-                eng.oblige(r, nm + ".pending_bits_are_spec", "inv", z3.And(*bvs2), st,
-                           note="bits == the `bit` stream bits after the last complete byte, zero above them (v << bit keeps every bit; "
-                                "bits >>= 8 shifts in zeros)")
-                eng.oblige(r, nm + ".cursor_algebra", "inv", z3.And(*lia2), st)
-                eng.oblige(r, nm + ".output_prefix_is_spec_and_frame", "inv", z3.And(*memf2), st)
-                eng.oblige(r, nm + ".values_not_written", "inv", r.mem["vals"] == vmem, st)
+                lia2, bvs2 = mk_inv(r, b2, c + m_new, e + 1, bits2, n, base)
+                prove(nm + ".pending_bits_are_spec", r.pc, z3.And(*bvs2),
+                      "bits == the `bit` stream bits after the last complete byte, zero above them (v << bit keeps every bit; bits >>= 8 "
+                      "shifts in zeros)", mf)
+                prove(nm + ".cursor_algebra", r.pc, z3.And(*lia2), "8c + bit == width*e, cursor == base + c, e <= n after the iteration", mf)
+                # (5) memory invariant, at Skolem indices, from the instances of the old one
+                i0, x0 = z3.Int(f"i0!{k}"), z3.Int(f"x0!{k}")
+                new = dict(mem_facts(M2, c + m_new, base, mem_h))
+                prove(nm + ".output_prefix_is_spec_and_frame", list(r.pc) + inst(r, "spec", i0) + inst(r, "frame", x0),
+                      z3.And(new["spec"](i0), new["frame"](x0)),
+                      "payload bytes [0, c') are the SPECBIT bytes and nothing else differs from the memory after the header", mf)
+                prove(nm + ".values_not_written", [], r.mem["vals"] == vmem, "the input is not written", mf)
                 if not z3.is_false(z3.simplify(z3.And(*bvs2))):
                     todo.append(b2)
         if todo:
@@ -457,21 +489,22 @@ def encode_bitpacked_closure(w, timeout, max_states=64):
     nbits = w * n
     pay = (nbits + 7) / 8
     # requires: 0 <= n <= 2**31 - 8 (run lengths are < 2**31 in the format), room for what the kernel writes, values inside the width
+    # (instantiated per iteration)
     p.pc += [n >= 0, n <= 2 ** 31 - 8, loc0 + L + pay <= on]
-    p.ghost.update(n=n, vmem=vmem)
     mf = lambda m: {"width": w, "n_values": mv(m, n), "o_loc": mv(m, loc0), "o_nbytes": mv(m, on)}
+    p.ghost.update(n=n, vmem=vmem, mf=mf)
     # vacuity guard
     if solve(list(p.pc) + [n >= 9], 5000)[0] != REFUTED:
-        res.addk(f"encode_bitpacked{tag}.precondition_satisfiable", "functional", UNKNOWN, None, 0.0, "z3", "not shown satisfiable")
+        res.addk(pre + "precondition_satisfiable", "functional", UNKNOWN, None, 0.0, "z3", "not shown satisfiable")
         return res
     try:
         outs = eng.run("encode_bitpacked", p, [values, PyI(w, lit=True), o])
     except Unsupported as ex:
-        res.take_engine(eng, f"encode_bitpacked{tag}.", timeout, mf)
-        res.addk(f"encode_bitpacked{tag}.closure_completed", "functional", UNKNOWN, None, 0.0, "engine", str(ex))
+        res.take_engine(eng, pre, timeout, mf)
+        res.addk(pre + "closure_completed", "functional", UNKNOWN, None, 0.0, "engine", str(ex))
         return res
-    res.take_engine(eng, f"encode_bitpacked{tag}.", timeout, mf)
-    res.addk(f"encode_bitpacked{tag}.closure_completed", "functional", PROVED, None, 0.0, "closure",
+    res.take_engine(eng, pre, timeout, mf)
+    res.addk(pre + "closure_completed", "functional", PROVED, None, 0.0, "closure",
              f"{len(state['seen'])} control states (pending bit count) reachable; closed under the real loop body")
     i_sk, idx = z3.Int("i_sk"), z3.Int("idx_sk")
     nret = 0
@@ -483,35 +516,36 @@ def encode_bitpacked_closure(w, timeout, max_states=64):
         loc1 = cy.loc(q, "o")
         base = q.ghost.get("base")
         if base is None:
-            res.addk(f"encode_bitpacked{tag}.closure_completed", "functional", UNKNOWN, None, 0.0, "engine", "the value loop was not reached")
+            res.addk(pre + "closure_completed", "functional", UNKNOWN, None, 0.0, "engine", "the value loop was not reached")
             continue
         calls = q.ghost.get("varint_calls", [])
-        ok_call = len(calls) == 1
-        # header
-        if ok_call:
+        # header: exactly one varint, at the old cursor, of the specification value; its bytes survive the payload writes
+        if len(calls) == 1:
             at, xi, Lc, _, _ = calls[0]
-            goal = z3.And(at == loc0, xi == hdr, base == loc0 + L, uleb_bytes(m1, loc0, z3.Int2BV(hdr, 64), L))
+            hb = [loc0 + u for u in range(10)]
+            prove("header_is_spec", list(q.pc) + inst(q, "frame", *hb),
+                  z3.And(at == loc0, xi == hdr, base == loc0 + L, uleb_bytes(m1, loc0, z3.Int2BV(hdr, 64), L)),
+                  "the run starts at the old cursor with ULEB128((ceil(n/8) << 1) | 1), written exactly once, intact after the payload writes", mf)
         else:
-            goal = z3.BoolVal(False)
-        post(res, f"encode_bitpacked{tag}.header_is_spec", q.pc, goal, timeout,
-             "the run starts at the old cursor with ULEB128((ceil(n/8) << 1) | 1), exactly once, and survives the payload writes", mf)
+            res.addk(pre + "header_is_spec", "functional", REFUTED, {"varint_calls": len(calls)}, 0.0, "engine",
+                     "the run header must be written exactly once")
         # whole payload, bit by bit, at a Skolem byte index
         cw = loc1 - base
-        inst = [VB(8 * i_sk + u) == specbit(q.ghost["vmem"], w, n, 8 * i_sk + u) for u in range(8)]
-        goal = z3.And(*[z3.Extract(u, u, z3.Select(m1, base + i_sk)) == specbit(q.ghost["vmem"], w, n, 8 * i_sk + u) for u in range(8)])
-        post(res, f"encode_bitpacked{tag}.payload_bits_are_spec", list(q.pc) + inst + [0 <= i_sk, i_sk < cw], goal, timeout,
-             "every bit of every payload byte written: stream bit t == bit (t % w) of values[t / w] for t < w*n, 0 (padding) beyond", mf)
-        post(res, f"encode_bitpacked{tag}.cursor_covers_all_value_bits", qf(q.pc), loc1 == base + pay, timeout,
-             "cursor == header end + ceil(w*n/8): all bytes carrying value bits are written (the last zero-padded), none beyond", mf)
-        post(res, f"encode_bitpacked{tag}.cursor_is_whole_groups[n%8==0]", qf(q.pc) + [n % 8 == 0], loc1 == base + groups * w, timeout,
-             "n a multiple of 8: the payload is exactly the groups*width bytes the header announces", mf)
-        post(res, f"encode_bitpacked{tag}.cursor_is_whole_groups[partial last group]", qf(q.pc) + [n % 8 != 0], loc1 == base + groups * w,
-             timeout, "n not a multiple of 8: the last group is completed with zero values, the payload is still groups*width bytes", mf)
-        post(res, f"encode_bitpacked{tag}.frame", list(q.pc) + [z3.Or(idx < loc0, idx >= loc1)], z3.Select(m1, idx) == z3.Select(mem0, idx),
-             timeout, "nothing outside [old cursor, new cursor) is modified", mf)
-        post(res, f"encode_bitpacked{tag}.values_not_written", q.pc, q.mem["vals"] == vmem, timeout, "the input is not written", mf)
-        post(res, f"encode_bitpacked{tag}.header_value_fits_int32", qf(q.pc), hdr <= 2 ** 31 - 1, timeout,
-             "(ceil(n/8) << 1) | 1 is representable in the int32 it is computed in, for every run length the format allows", mf, kind="safety")
+        defs = [VB(8 * i_sk + u) == specbit(vmem, w, n, 8 * i_sk + u) for u in range(8)]          # instances of the definition of SPECBIT
+        goal = z3.And(*[z3.Extract(u, u, z3.Select(m1, base + i_sk)) == specbit(vmem, w, n, 8 * i_sk + u) for u in range(8)])
+        prove("payload_bits_are_spec", list(q.pc) + defs + inst(q, "spec", i_sk) + [0 <= i_sk, i_sk < cw], goal,
+              "every bit of every payload byte written: stream bit t == bit (t % w) of values[t / w] for t < w*n, 0 (padding) beyond", mf)
+        prove("cursor_covers_all_value_bits", q.pc, loc1 == base + pay,
+              "cursor == header end + ceil(w*n/8): all bytes carrying value bits are written (the last zero-padded), none beyond", mf)
+        prove("cursor_is_whole_groups[n%8==0]", list(q.pc) + [n % 8 == 0], loc1 == base + groups * w,
+              "n a multiple of 8: the payload is exactly the groups*width bytes the header announces", mf)
+        prove("cursor_is_whole_groups[partial last group]", list(q.pc) + [n % 8 != 0], loc1 == base + groups * w,
+              "n not a multiple of 8: the last group is completed with zero values - the payload is still groups*width bytes", mf)
+        prove("frame", list(q.pc) + inst(q, "frame", idx) + [z3.Or(idx < loc0, idx >= loc1)], z3.Select(m1, idx) == z3.Select(mem0, idx),
+              "nothing outside [old cursor, new cursor) is modified", mf)
+        prove("values_not_written", [], q.mem["vals"] == vmem, "the input is not written", mf)
+        prove("header_value_fits_int32", q.pc, hdr <= 2 ** 31 - 1,
+              "(ceil(n/8) << 1) | 1 is representable in the int32 it is computed in, for every run length the format allows", mf, kind="safety")
     if nret == 0:
-        res.addk(f"encode_bitpacked{tag}.payload_bits_are_spec", "functional", UNKNOWN, None, 0.0, "engine", "no returning path")
+        res.addk(pre + "payload_bits_are_spec", "functional", UNKNOWN, None, 0.0, "engine", "no returning path")
     return res
